@@ -84,7 +84,7 @@ func analyseHash(c *Ctx, fn *ssa.Function, h *ssa.Call) hashUse {
 				}
 			case q == "io.TeeReader" && len(call.Call.Args) == 2 && call.Call.Args[1] == a:
 				// (i) the tee must end up as the source of a copy into the archive
-				if cp := teeCopiedToArchive(call, 0); cp != nil {
+				if cp := teeCopiedToArchive(c, call, 0); cp != nil {
 					u.feeds = append(u.feeds, cp)
 					u.how = append(u.how, "TeeReader on the stream copied into the archive")
 				} else {
@@ -163,7 +163,7 @@ func closesOf(ctor *ssa.Call) map[*ssa.Call]bool {
 
 // teeCopiedToArchive follows a TeeReader (through further tees) to the io.Copy
 // that consumes it; the copy's destination must be an archive writer.
-func teeCopiedToArchive(tee *ssa.Call, depth int) *ssa.Call {
+func teeCopiedToArchive(c *Ctx, tee *ssa.Call, depth int) *ssa.Call {
 	if depth > 4 {
 		return nil
 	}
@@ -173,11 +173,11 @@ func teeCopiedToArchive(tee *ssa.Call, depth int) *ssa.Call {
 			// stored into a local variable and reloaded (r = io.TeeReader(r, h))
 			continue
 		}
-		if calleeIs(call, "io", "", "Copy") && call.Call.Args[1] == ssa.Value(tee) && isArchiveWriterType(call.Call.Args[0]) {
+		if calleeIs(call, "io", "", "Copy") && call.Call.Args[1] == ssa.Value(tee) && (isArchiveWriterType(call.Call.Args[0]) || paramBoundToArchive(c, call.Call.Args[0])) {
 			return call
 		}
 		if calleeIs(call, "io", "", "TeeReader") && call.Call.Args[0] == ssa.Value(tee) {
-			if cp := teeCopiedToArchive(call, depth+1); cp != nil {
+			if cp := teeCopiedToArchive(c, call, depth+1); cp != nil {
 				return cp
 			}
 		}
@@ -1429,4 +1429,30 @@ func appliesHelperTo(c *Ctx, f *ssa.Function, p *ssa.Parameter, helper string, d
 		}
 	})
 	return found
+}
+
+// paramBoundToArchive: v is a writer parameter of a module helper that every
+// call site binds to an archive writer.
+func paramBoundToArchive(c *Ctx, v ssa.Value) bool {
+	prm, ok := v.(*ssa.Parameter)
+	if !ok {
+		return false
+	}
+	fn := prm.Parent()
+	idx := -1
+	for i, q := range fn.Params {
+		if q == prm {
+			idx = i
+		}
+	}
+	sites := newProv(c).callSites(fn)
+	if idx < 0 || len(sites) == 0 {
+		return false
+	}
+	for _, cs := range sites {
+		if idx >= len(cs.Common().Args) || !isArchiveWriterType(cs.Common().Args[idx]) {
+			return false
+		}
+	}
+	return true
 }
